@@ -45,6 +45,9 @@ CFG = {
         "Swat4.C09.Example.listing_skips_removed_witness",
         "Swat4.C09.C09_listing_total",
         "Swat4.C09.C09_log_prefix",
+        "Swat4.C09.facts_record_reads_fenced",
+        "Swat4.C09.facts_fence_check",
+        "Swat4.C09.facts_write_keys",
     ],
     "shards": (4, 16),
     "nontrivial": _c09_nontrivial,
